@@ -14,7 +14,7 @@ for pid in sys.argv[1:]:
 You are helping to evaluate a test framework by planting subtle bugs. You have your own scratch git worktree of the
 paramiko SSH library at {w} (Python: /venv/bin/python; run the existing test suite with
 `cd {w} && /venv/bin/python -m pytest -q -p no:cacheprovider --timeout=900 -x`, ~80-150 s; there is no network).
-Work ONLY inside {w} (do not read or touch /repo, /verif or any other directory; do not commit).
+Work ONLY inside {w} (do not read or touch /repo, /verif or any other directory; do not commit; do NOT use `git stash` — it is shared between worktrees — use `git diff > file` and `git apply -R` instead).
 
 ## The property that must normally hold
 
